@@ -64,3 +64,11 @@ class FastModel(Model):
     def remove_filtered_policy_returns_effects(self, sec, ptype, field_index, *field_values):
         """removes policy rules based on field filters from the model and returns them."""
         return self._on_list(super().remove_filtered_policy_returns_effects, sec, ptype, field_index, *field_values)
+
+    def update_policy(self, sec, ptype, old_rule, new_rule):
+        """update a policy rule from the model."""
+        return self._on_list(super().update_policy, sec, ptype, old_rule, new_rule)
+
+    def update_policies(self, sec, ptype, old_rules, new_rules):
+        """update policy rules from the model."""
+        return self._on_list(super().update_policies, sec, ptype, old_rules, new_rules)
